@@ -360,20 +360,33 @@ def _feasible(cons):
     names = sorted({a for c, k in cons for a, v in c.items() if v != 0})
     idx = {a: i for i, a in enumerate(names)}
     rows = set()
+    n1 = len(names) + 1
     for c, k in cons:
-        den = 1
-        vals = list(c.values()) + [k]
-        for v in vals:
-            fv = Fraction(v)
-            den = den * fv.denominator // gcd(den, fv.denominator)
-        row = [0] * (len(names) + 1)
-        for a, v in c.items():
-            if v != 0:
-                row[idx[a]] = int(Fraction(v) * den)
-        row[-1] = int(Fraction(k) * den)
+        allint = type(k) is int
+        if allint:
+            for v in c.values():
+                if type(v) is not int:
+                    allint = False
+                    break
+        row = [0] * n1
+        if allint:
+            for a, v in c.items():
+                if v:
+                    row[idx[a]] = v
+            row[-1] = k
+        else:
+            den = 1
+            for v in list(c.values()) + [k]:
+                fv = Fraction(v)
+                den = den * fv.denominator // gcd(den, fv.denominator)
+            for a, v in c.items():
+                if v != 0:
+                    row[idx[a]] = int(Fraction(v) * den)
+            row[-1] = int(Fraction(k) * den)
         g = 0
         for v in row:
-            g = gcd(g, abs(v))
+            if v:
+                g = gcd(g, v if v > 0 else -v)
         if g > 1:
             row = [v // g for v in row]
         rows.add(tuple(row))
@@ -440,7 +453,7 @@ def _fm(rows, n):
 
 def _ge0(t):
     """linear term t >= 0 as FM constraint."""
-    return ({a: Fraction(k) for a, k in t[1]}, Fraction(t[2]))
+    return ({a: (k if type(k) is int else Fraction(k)) for a, k in t[1]}, t[2] if type(t[2]) is int else Fraction(t[2]))
 
 
 def pieces(t, domain, limit=4000):
